@@ -438,9 +438,9 @@ func Validate(profile CertificateProfile, content CertificateContent) bool {
 				if profile.SubjectAttributes.AllowOther {
 					haveAttribute++
 				} else {
-					logging.Warningf("profile violation: expected %v at this position, but got %v and allowOther is false",
-						wantAt, subject[haveAttribute][0].Type)
-					return false
+					//the profile attribute was left out; whether that is
+					//allowed is decided below, once we know what is missing
+					wantAttribute++
 				}
 			}
 		}
@@ -448,6 +448,31 @@ func Validate(profile CertificateProfile, content CertificateContent) bool {
 		if haveAttribute < len(content.Subject) && !profile.SubjectAttributes.AllowOther {
 			logging.Warningf("profile violation: provided number of attributes larger than specified in profile while allowOther is false")
 			return false
+		}
+
+		//attributes that are not optional must be present
+		for _, attr := range profile.SubjectAttributes.Attributes {
+			if attr.Optional {
+				continue
+			}
+			wantAt, err := GetRdnAttributeOid(attr.Attribute)
+			if err != nil {
+				wantAt, err = cert.OidFromString(attr.Attribute)
+				if err != nil {
+					return false
+				}
+			}
+			found := false
+			for _, rdn := range subject {
+				if len(rdn) > 0 && wantAt.Equal(rdn[0].Type) {
+					found = true
+					break
+				}
+			}
+			if !found {
+				logging.Warningf("profile violation: mandatory attribute %v is missing", attr.Attribute)
+				return false
+			}
 		}
 	}
 
